@@ -1,6 +1,10 @@
-/- line-protocol driver for C04: `drv_c04 <sub-command>` reads operations on stdin, prints one canonical line per operation.
-   Core Lean only (nothing imported here may import Mathlib, or the executable will not link). -/
+/- line-protocol driver for C04: `drv_c04 bfseq|bfmodel|frame|alloca|path` reads operations on stdin, prints one canonical
+   line per operation.  Core Lean only (nothing imported here may import Mathlib, or the executable will not link). -/
+import ChibiVerif.Driver.C04Cmd
 
 def main (args : List String) : IO UInt32 := do
-  IO.eprintln s!"drv_c04: no sub-commands yet (args {args})"
-  return 2
+  match args with
+  | sub :: _ => ChibiVerif.Driver.C04.run sub
+  | _ =>
+    IO.eprintln "usage: drv_c04 bfseq|bfmodel|frame|alloca|path"
+    return 2
